@@ -1,11 +1,12 @@
 #!/bin/bash
-# usage: confirm_seed.sh <PROP> <name>   (worktree /tmp/seed_<PROP> with the change applied in its working tree, demo_<PROP>.py)
+# usage: confirm_seed.sh <PROP> <name> [worktree]   (worktree default /tmp/seed_<PROP>, with the change applied in its working tree and demo_<PROP>.py)
 # Confirms: demo PASS on original, FAIL on changed; pinned suite's stable tests still pass with the change. Writes /verif/seeded/<PROP>-<name>/
 # (no git stash: the stash is shared between worktrees)
 set -u
-P=$1; NAME=$2; WT=/tmp/seed_$P; OUT=/verif/seeded/$P-$NAME
+P=$1; NAME=$2; WT=${3:-/tmp/seed_$P}; OUT=/verif/seeded/$P-$NAME
 mkdir -p $OUT
 cd $WT || exit 2
+[ -f src/urllib3/_version.py ] || cp /repo/src/urllib3/_version.py src/urllib3/_version.py
 git diff -- src > $OUT/patch.diff
 [ -s $OUT/patch.diff ] || { echo "no diff"; exit 2; }
 cp demo_$P.py $OUT/demo.py
@@ -14,7 +15,9 @@ PYTHONPATH=$WT/src timeout 300 /venv/bin/python demo_$P.py > $OUT/demo_original.
 git apply $OUT/patch.diff || { echo "cannot re-apply"; exit 2; }
 PYTHONPATH=$WT/src timeout 300 /venv/bin/python demo_$P.py > $OUT/demo_changed.log 2>&1; c=$?
 echo "demo original exit=$o changed exit=$c"
-PYTHONPATH=$WT/src timeout 1500 /venv/bin/python -m pytest -ra -q -p no:cacheprovider --timeout=900 --continue-on-collection-errors --junitxml=/tmp/seed_$P.xml > /tmp/seed_$P.suite.log 2>&1
-s=$(/venv/bin/python /verif/tools/junit_vs_baseline.py /tmp/seed_$P.xml)
+X=/tmp/confirm_${P}_$NAME.xml
+PYTHONPATH=$WT/src timeout 1500 /venv/bin/python -m pytest -ra -q -p no:cacheprovider --timeout=900 --continue-on-collection-errors --junitxml=$X > /tmp/confirm_${P}_$NAME.suite.log 2>&1
+s=$(/venv/bin/python /verif/tools/junit_vs_baseline.py $X)
 echo "$s"
 echo "{\"demo_original_exit\": $o, \"demo_changed_exit\": $c, \"suite\": \"$(echo $s | sed 's/"/\\"/g')\"}" > $OUT/confirm.json
+rm -f $X
